@@ -247,7 +247,7 @@ fn veval<B: Bk>(op: &Op, am: &M, la: usize, bm: Option<(&M, usize)>) -> Vec<Val>
     let b = || b.as_ref().expect("second operand");
     let twin = |x: V<B>, y: V<B>| vec![vv(&x), vv(&y)];
     match op.k {
-        K::VBasic => vec![Val::num(a.len() as f64), Val::flag(a.is_empty()), Val::vec(a.to_vec()), vv(&V::<B>::from_array(&am.v))],
+        K::VBasic => vec![Val::num(a.len() as f64), Val::flag(a.is_empty()), Val::vec(a.to_vec()), vv(&V::<B>::from_array(&am.v)), Val::flag(a.approximate_eq(&a.clone(), 0.0))],
         K::VSet => {
             let mut x = a;
             x.set(op.i, op.x);
